@@ -16,7 +16,7 @@ WEIRD = ['we"ird.py', "back\\slash.py", "café.py", "sp ace.js", "src/qu'ote.ts"
          "codebase/totals.c", "a b/c d.py", "ünï/cödé.ts", "x" * 120 + ".py", "src/profile/entries.java", "root.cs", "..py", "a..b.js",
          "src/[brackets].py", "50%.c", "dollar$.ts", "semi;colon.py",
          "cafe\u0301.py", "src/nai\u0308ve/u\u0308ber.js",      # decomposed (NFD) spellings, next to NFC café.py
-         "caf\udce9.py"]                                          # a name that is not valid UTF-8 (byte E9)
+         "caf\udce9.py", "caf\udce8.py"]                         # two names that differ only in a non-UTF-8 byte                                          # a name that is not valid UTF-8 (byte E9)
 DISTRACTOR_DIRS = ["src", "lib", "pkg", "x/y"]
 
 GOOD_SHAPES = ("one2", "one15", "one16", "one30", "one31", "one60", "one61", "one75", "multi", "multi2",
